@@ -31,11 +31,14 @@ def _prod(xs):
 
 @st.composite
 def mdp_specs(draw, max_states=10, max_actions=4, max_events=4, min_states=1, allow_v0=True, allow_pol0=True,
-              structure=True, chain=None, reward_scales=(-2, 3), tie_unit=None, scale=None, sticky=None):
+              structure=True, chain=None, reward_scales=(-2, 3), tie_unit=None, scale=None, sticky=None, allow_int_v0=True):
     """chain: None (free), "hub" (unichain aperiodic by construction), "phase:p" (periodic with period p)."""
     # --- encodings and sizes
-    skind = draw(st.sampled_from(["ravel", "offset", "idcol"]))
-    if skind == "idcol":
+    skind = draw(st.sampled_from(["ravel", "offset", "idcol", "halfstep"]))
+    if skind == "halfstep":
+        nS = draw(st.integers(min_states, max_states))
+        sdims = [nS]
+    elif skind == "idcol":
         nS = draw(st.integers(min_states, max_states))
         sdims = [draw(st.integers(1, 3))]
     else:
@@ -134,17 +137,22 @@ def mdp_specs(draw, max_states=10, max_actions=4, max_events=4, min_states=1, al
             nxt[s][a] = [s] * nE
         flags.append("absorbing")
     v0 = None
+    v0_int = False
     if allow_v0 and draw(st.integers(0, 2)) == 0:
         vs = draw(st.sampled_from([1.0, 10.0, 100.0])) * scale
         v0 = [draw(st.integers(-10, 10)) * 0.5 * vs for _ in range(nS)]
         flags.append("v0")
+        if allow_int_v0 and all(float(x).is_integer() and abs(x) < 2**30 for x in v0) and draw(st.integers(0, 2)) == 0:
+            v0_int = True  # initial_value returns an integer-typed estimate (e.g. a count read from the state vector)
+            flags.append("v0-int-dtype")
     pol0 = None
     if allow_pol0 and draw(st.integers(0, 2)) == 0:
         pol0 = [draw(st.integers(0, nA - 1)) for _ in range(nS)]
         flags.append("pol0")
     prob_shape = draw(st.sampled_from(["scalar", "scalar", "array1"]))
     return dict(nS=nS, nA=nA, nE=nE, next=nxt, reward=rew, prob=prb, v0=v0, pol0=pol0, scale=scale, flags=flags,
-                enc=dict(state=skind, sdims=sdims, adims=adims, edims=edims, prob_shape=prob_shape))
+                enc=dict(state=skind, sdims=sdims, adims=adims, edims=edims, prob_shape=prob_shape,
+                         **({"v0_dtype": "int"} if v0_int else {})))
 
 
 gammas_discounted = st.one_of(
